@@ -644,8 +644,8 @@ func decodeString(value *reflect.Value, packet []byte, state *stateDecode) (*ref
 	if len(packet) < 2 {
 		return nil, nil, errDecodeEOD
 	}
-	l := binary.BigEndian.Uint16(packet)
-	if len(packet) < int(2+l) {
+	l := int(binary.BigEndian.Uint16(packet))
+	if len(packet) < 2+l {
 		return nil, nil, errDecodeEOD
 	}
 
